@@ -74,12 +74,12 @@ Probe(S, t) == [op |-> "probe", at |-> t + MarginA,
                 exp |-> {[k |-> v[1], i |-> v[2], v |-> Served(S.cols[v[1]][v[2]], t, t + MarginA)] : v \in Keys \X Ids},
                 hexp |-> {[nm |-> nm, v |-> Served(S.hooks[nm], t, t + MarginA)] : nm \in Names}]
 \* A real clock cannot be replayed tick-exactly: a command whose outcome depends on whether a deadline near its own
-\* instant has already fired (EXPIRE / PERSIST of that id, RENAME of any collection) makes the probe of its program
+\* instant has already fired (EXPIRE / PERSIST of that id, RENAME of any collection - which hooks block too) makes the probe of its program
 \* undetermined.  Conservative, from the program alone: deadlines that were later moved or cancelled count too.
 Racy(h) == \E a \in 1..Len(h), b \in 1..Len(h) :
-              /\ a < b /\ h[a].op \in {"set", "expire"} /\ h[a].ttl >= 0
-              /\ \/ h[b].op = "rename"
-                 \/ h[b].op \in {"expire", "persist"} /\ h[b].i = h[a].i
+              /\ a < b /\ h[a].op \in {"set", "expire", "sethook"} /\ h[a].ttl >= 0
+              /\ \/ h[b].op = "rename"          \* (also refused while a hook or channel is on either key)
+                 \/ h[b].op \in {"expire", "persist"} /\ h[a].op # "sethook" /\ h[b].i = h[a].i
               /\ h[a].at + h[a].ttl >= h[b].at - MarginA /\ h[a].at + h[a].ttl < h[b].at + MarginP
 Program(tag, h, S, t, ph) == [tag |-> tag, phase |-> ph, racy |-> Racy(h), h |-> Append(h, Probe(S, t))]
 
